@@ -9,7 +9,10 @@ import (
 	"log"
 	"math/rand"
 	"os"
+	"runtime"
 	"sort"
+	"strings"
+	"time"
 
 	"verifharness/internal/hx"
 )
@@ -84,7 +87,45 @@ func run(name string, seedV int64, nV int, tierV, outV, statsV, replayV, modeV s
 				in = *replay
 			}
 			oracleOffset = done
-			c, fails := of(r, min(chunk, *n-done), *tier, in)
+			// a deadlock in the code under test must not make the check sit until its caller's time-out: a slice that
+			// does not come back is reported and the run ends
+			type sliceRes struct {
+				c     int
+				fails []string
+			}
+			resCh := make(chan sliceRes, 1)
+			go func() {
+				c, fails := of(r, min(chunk, *n-done), *tier, in)
+				resCh <- sliceRes{c, fails}
+			}()
+			limit := 15 * time.Minute
+			if *tier == "thorough" {
+				limit = 40 * time.Minute
+			}
+			var c int
+			var fails []string
+			select {
+			case sr := <-resCh:
+				c, fails = sr.c, sr.fails
+			case <-time.After(limit):
+				buf := make([]byte, 1<<20)
+				buf = buf[:runtime.Stack(buf, true)]
+				var where []string
+				for _, blk := range strings.Split(string(buf), "\n\n") {
+					if strings.Contains(blk, "go.brendoncarroll.net/p2p") && len(where) < 6 {
+						for _, l := range strings.Split(blk, "\n") {
+							if strings.HasPrefix(l, "go.brendoncarroll.net/p2p") {
+								where = append(where, l)
+								break
+							}
+						}
+					}
+				}
+				fmt.Printf("ORACLE-FAIL %s oracle: a case did not finish within %v (deadlock?); goroutines in the library: %s\n", name, limit, strings.Join(where, " | "))
+				fmt.Printf("oracle cases=%d fails=%d\n", cases+1, nfails+1)
+				os.Stdout.Sync()
+				os.Exit(0)
+			}
 			cases += c
 			nfails += len(fails)
 			for _, f := range fails {
